@@ -152,6 +152,27 @@ theorem choosePath_spec (opt : Int) (n : Nat) :
     · have : ¬ opt ≤ 0 := by omega
       simp [h0, hn, this]
 
+/-- **Encryption is injective on (header, payload)** — even across different random streams: if two
+`Cipher.Encrypt` calls under the same key and direction produce the same ciphertext, they were given the
+same salt, session id, message id, sequence number and payload. -/
+theorem encrypt_injective (P : Prims) (hP : LawfulPrims P) (side : Side) (ak keyId : Bytes)
+    (salt sid mid seq salt' sid' mid' seq' : Nat) (payload payload' rnd rnd' c : Bytes)
+    (hk : keyId.length = 8)
+    (h1 : salt < 2 ^ 64) (h2 : sid < 2 ^ 64) (h3 : mid < 2 ^ 64) (h4 : seq < 2 ^ 32)
+    (h1' : salt' < 2 ^ 64) (h2' : sid' < 2 ^ 64) (h3' : mid' < 2 ^ 64) (h4' : seq' < 2 ^ 32)
+    (hmod : payload.length % 4 = 0) (hl : payload.length < 2 ^ 31)
+    (hmod' : payload'.length % 4 = 0) (hl' : payload'.length < 2 ^ 31)
+    (he : encrypt P side ak keyId salt sid mid seq payload rnd = .ok c)
+    (he' : encrypt P side ak keyId salt' sid' mid' seq' payload' rnd' = .ok c) :
+    salt = salt' ∧ sid = sid' ∧ mid = mid' ∧ seq = seq' ∧ payload = payload' := by
+  obtain ⟨d, hd, a1, a2, a3, a4, _, a6, _⟩ :=
+    decrypt_encrypt P hP side ak keyId salt sid mid seq payload rnd c hk h1 h2 h3 h4 hmod hl he
+  obtain ⟨d', hd', b1, b2, b3, b4, _, b6, _⟩ :=
+    decrypt_encrypt P hP side ak keyId salt' sid' mid' seq' payload' rnd' c hk h1' h2' h3' h4' hmod' hl' he'
+  rw [hd] at hd'
+  cases hd'
+  exact ⟨a1 ▸ b1, a2 ▸ b2, a3 ▸ b3, a4 ▸ b4, a6 ▸ b6⟩
+
 /-- The encrypted body of anything `Cipher.Encrypt` outputs is a positive multiple of 16 bytes after
 the 24-byte envelope (no hypothesis on payload or key). -/
 theorem encrypt_len_mod16 (P : Prims) (hP : LawfulPrims P) (side : Side) (ak keyId : Bytes)
